@@ -68,7 +68,7 @@ OPT_BY = ["bymonth", "byweekno", "byweekday", "byeaster", "byyearday", "bysetpos
 LIST_BY = ["bymonthday", "bynmonthday"]
 LIST_MASK = ["mmask", "mdaymask", "nmdaymask", "wdaymask"]
 OPT_MASK = ["wnomask", "nwdaymask", "eastermask"]
-INT_LOCALS = ["year", "month", "day", "hour", "minute", "second", "weekday", "i", "div", "mod", "ndays",
+INT_LOCALS = ["year", "month", "day", "hour", "minute", "second", "weekday", "i", "div", "mod", "ndays", "back",
               "nhours", "nminutes", "rep_rate", "daysinmonth", "value", "accumulator", "base"]
 LOOP_TEMPS = ["nhours", "nminutes", "div", "valid", "filtered", "j"]
 BOOL_LOCALS = ["filtered", "fixday"]
@@ -129,7 +129,7 @@ def intexpr(e):
     if isinstance(e, ast.UnaryOp) and isinstance(e.op, ast.USub):
         return "(- %s)" % intexpr(e.operand)
     if isinstance(e, ast.BinOp):
-        ops = {ast.Add: "+", ast.Sub: "-", ast.Mult: "*", ast.FloorDiv: "/"}
+        ops = {ast.Add: "+", ast.Sub: "-", ast.Mult: "*", ast.FloorDiv: "/", ast.Mod: "mod"}
         if type(e.op) in ops:
             return "(%s %s %s)" % (intexpr(e.left), ops[type(e.op)], intexpr(e.right))
     raise TranslateError("unsupported integer expression: " + ast.unparse(e))
@@ -412,6 +412,56 @@ def gate_def_of(s):
             "  else if inst_le (dtstart_inst rl) x then\n    %s\n  else (out, cnt, None).\n" % gate_body(e.body, "cnt"))
 
 
+# ----------------------------------------------------------------------------------------
+# the WEEKLY + BYSETPOS week-start of the prologue (a date is its proleptic ordinal:
+# self._dtstart.toordinal() -> ord_of_ymd (s_y rl) (s_m rl) (s_d rl), date.fromordinal(e) -> e,
+# first.year/.month/.day -> ymd_of_ord first, first.weekday() -> weekday_of_ord first)
+
+def ordexpr(e):
+    if ast.unparse(e) == "self._dtstart.toordinal()":
+        return "(ord_of_ymd (s_y rl) (s_m rl) (s_d rl))"
+    if isinstance(e, ast.BinOp) and isinstance(e.op, (ast.Add, ast.Sub)):
+        return "(%s %s %s)" % (ordexpr(e.left), "+" if isinstance(e.op, ast.Add) else "-", ordexpr(e.right))
+    if isinstance(e, ast.Call) and isinstance(e.func, ast.Name) and e.func.id == "max" and len(e.args) == 2 \
+            and not e.keywords:
+        return "(Z.max %s %s)" % (ordexpr(e.args[0]), ordexpr(e.args[1]))
+    return intexpr(e)
+
+
+def week_start(s):
+    if not (isinstance(s, ast.If) and not s.orelse and isinstance(s.test, ast.BoolOp) and isinstance(s.test.op, ast.And)
+            and [ast.unparse(v) for v in s.test.values] == ["freq == WEEKLY", "bysetpos"]):
+        raise TranslateError("the week-start statement is not `if freq == WEEKLY and bysetpos:`")
+    b = s.body
+    if not (len(b) == 2 and isinstance(b[0], ast.Assign) and ast.unparse(b[0].targets[0]) == "back"
+            and isinstance(b[1], ast.If) and not b[1].orelse and len(b[1].body) == 3):
+        raise TranslateError("the week-start body has an unexpected shape")
+    back = intexpr(b[0].value)
+    test = purecond(b[1].test)
+    f, ymd, wd = b[1].body
+    if not (isinstance(f, ast.Assign) and ast.unparse(f.targets[0]) == "first" and isinstance(f.value, ast.Call)
+            and ast.unparse(f.value.func) == "datetime.date.fromordinal" and len(f.value.args) == 1):
+        raise TranslateError("week start: `first = datetime.date.fromordinal(...)` expected")
+    first = ordexpr(f.value.args[0])
+    if dump(ymd) != dump(parse_stmts("year, month, day = first.year, first.month, first.day")[0]):
+        raise TranslateError("week start: `year, month, day = first.year, first.month, first.day` expected")
+    if dump(wd) == dump(parse_stmts("weekday = first.weekday()")[0]):
+        wdt = "weekday_of_ord first"
+    elif isinstance(wd, ast.Assign) and ast.unparse(wd.targets[0]) == "weekday":
+        wdt = intexpr(wd.value)
+    else:
+        raise TranslateError("week start: assignment of `weekday` expected")
+    return ("Definition gen_week_start (rl : rule) (year month day weekday : Z) : Z * Z * Z * Z :=\n"
+            "  if (freq rl =? WEEKLY) && truthy (bysetpos rl) then\n"
+            "    let back := %s in\n"
+            "    if %s then\n"
+            "      let first := %s in\n"
+            "      let '(year, month, day) := ymd_of_ord first in\n"
+            "      let weekday := %s in (year, month, day, weekday)\n"
+            "    else (year, month, day, weekday)\n"
+            "  else (year, month, day, weekday).\n" % (back, test, first, wdt))
+
+
 HEADER = """let year := c_year s in let month := c_month s in let day := c_day s in
   let hour := c_hour s in let minute := c_minute s in let second := c_second s in
   let weekday := c_weekday s in let ii := c_ii s in let ts := c_timeset s in
@@ -441,11 +491,11 @@ byminute = self._byminute
 bysecond = self._bysecond
 if freq == WEEKLY and bysetpos:
     back = (weekday - wkst) % 7
-    if back and self._dtstart.toordinal() - back >= 1:
+    if back:
         first = datetime.date.fromordinal(
-            self._dtstart.toordinal() - back)
+            max(self._dtstart.toordinal() - back, 1))
         year, month, day = first.year, first.month, first.day
-        weekday = wkst
+        weekday = first.weekday()
 ii = _iterinfo(self)
 ii.rebuild(year, month)
 getdayset = {YEARLY: ii.ydayset,
@@ -545,6 +595,10 @@ def translate():
     if dump(loop.test) != dump(ast.parse("True").body[0].value) or loop.orelse:
         raise TranslateError("the main loop is not `while True:`")
     expect(body[:-1], PIN_PROLOGUE, "the prologue of _iter")
+    ws = [n for n in body[:-1] if isinstance(n, ast.If) and ast.unparse(n.test).startswith("freq == WEEKLY")]
+    if len(ws) != 1:
+        raise TranslateError("the prologue has no unique `if freq == WEEKLY and bysetpos:`")
+    week_def = week_start(ws[0])
     w = loop.body
     if len(w) != 7:
         raise TranslateError("the body of `while True:` no longer has its 7 sections (has %d)" % len(w))
@@ -635,6 +689,7 @@ def translate():
         t = "r_or (gen_cl_%d rl ii i) (%s)" % (k, t)
     out.append("Definition gen_day_rejected (rl : rule) (ii : iinfo) (i : Z) : res bool :=\n  %s.\n" % t)
     out.append(gate_def)
+    out.append(week_def)
     out.append(fix_step)
     out.append(md_step)
     for fq, b in branches:
